@@ -450,7 +450,7 @@ func checkMergedView(p *Program, r *Report) {
 		fk := funcKey(fn)
 		var moved []string
 		cfg := &simCfg{Event: map[string]bool{add: true, nextName: true}, Opaque: map[string]bool{"newRecord": true}, NoInlineDefault: true,
-			OnStoreHook: func(c *simClient, x *Exec, st *State, fr *Frame, pos token.Pos, addr, val *Term) {
+			OnStoreHook: func(c *simClient, x *Exec, st *State, fr *Frame, pos token.Pos, addr, val, old *Term) {
 				if (addr.Op == "index" && strings.Contains(addr.Args[0].key, a.iterT.Obj().Name()+".") && !val.isNilConst()) ||
 					(addr.Op == "field" && strings.HasPrefix(addr.Aux, a.iterT.Obj().Name()+".") && val.Op != "const" && isSliceTyped(a.iterT, addr.Aux)) {
 					moved = append(moved, p.pos(pos))
@@ -580,6 +580,7 @@ func checkMergedView(p *Program, r *Report) {
 			// the loop-carried "previous table" and the current one: operands of
 			// the pure calls that belong to this iteration
 			var lastT, curT *Term
+			var maxCall, minCall, hashCall *Term
 			curMark := termByKey(s.Loop)
 			var fkeys []string
 			for k := range s.St.facts {
@@ -593,10 +594,13 @@ func checkMergedView(p *Program, r *Report) {
 						return
 					}
 					if u.Aux == maxN {
-						lastT = u.Args[0]
+						lastT, maxCall = u.Args[0], u
 					}
-					if u.Aux == minN || u.Aux == hashN {
-						curT = u.Args[0]
+					if u.Aux == minN {
+						curT, minCall = u.Args[0], u
+					}
+					if u.Aux == hashN {
+						curT, hashCall = u.Args[0], u
 					}
 				})
 			}
@@ -605,16 +609,20 @@ func checkMergedView(p *Program, r *Report) {
 				r.violate("DT-MERGE-PRE", fk+" / ordering and hash precondition", p.pos(a.newMerged.Pos()), "a table is accepted into the merged view without its update-index range or hash id being examined", w)
 				continue
 			}
-			spec := fAtom(tEq(mk("pcall", hashN, nil, curT), hashP))
-			if lastT != nil {
-				spec = fAnd(spec, fOr(fAtom(tEq(lastT, tNil)), fAtom(tLt(mk("pcall", maxN, nil, lastT), mk("pcall", minN, nil, curT)))))
+			if hashCall == nil {
+				r.violate("DT-MERGE-PRE", fk+" / ordering and hash precondition", p.pos(a.newMerged.Pos()), "a table is accepted into the merged view without its hash id being compared with the view's", w)
+				continue
+			}
+			spec := fAtom(tEq(hashCall, hashP))
+			if lastT != nil && minCall != nil {
+				spec = fAnd(spec, fOr(fAtom(tEq(lastT, tNil)), fAtom(tLt(maxCall, minCall))))
 			} else {
 				// no comparison with the previous table on this path: must be the first table
 				spec = fAnd(spec, &Formula{Op: "false"})
 				for k, v := range s.St.facts {
 					t := s.St.fterm[k]
 					if t.Op == "eq" && v && (t.Args[0].isNilConst() || t.Args[1].isNilConst()) {
-						spec = fAtom(tEq(mk("pcall", hashN, nil, curT), hashP))
+						spec = fAtom(tEq(hashCall, hashP))
 					}
 				}
 			}
